@@ -515,7 +515,7 @@ func init() {
 		ID: "C12", Level: "model_checking",
 		Rule: "states = canonical cue lists (Order) / pairs of lists with definition maps (Merge); transitions = the real Order/Merge on fresh real objects compared with insertion-sort stable order on uids, union-with-receiver-wins on definitions, and a before/after snapshot of the argument; includes EVERY list of 13 and 14 cues over two start values because the standard library's unstable sort only departs from a stable one at n >= 13; non-trivial = order changed / any Merge case",
 		Scope: map[core.Tier]string{
-			core.Quick:    "Order: all lists of <=4 cues with starts 0..3; all 2^13 and 2^14 lists with starts {0,1}. Merge: all pairs of lists of <=3 cues over 3 starts x 3 receiver kinds (NewSubtitles, &Subtitles{}, Subtitles{Items:..}); all 4096 overlap patterns of style ids {s1,s2,s3} x region ids {r1,r2,r3} x 3 item pairs x receiver kinds",
+			core.Quick:    "Order: all lists of <=4 cues with starts 0..3; all 2^13 and 2^14 lists with starts {0,1}. Merge: all pairs of lists of <=3 cues over 3 starts x 3 receiver kinds (NewSubtitles, &Subtitles{}, Subtitles{Items:..}); all 4096 overlap patterns of style ids {s1,s2,s3} x region ids {r1,r2,r3} x 3 item pairs x receiver kinds; Order also in units of 300 us and 1 ns, Merge also on two-cue lists in 300 us (several starts inside one millisecond)",
 			core.Thorough: "Order: <=5 cues, 2^13, 2^14, 2^16 and 3^13 lists; Merge as quick",
 		},
 		Assumptions: []string{"Go toolchain and standard library", "reference model refops.Order (insertion sort), refops.Merge"},
